@@ -1,0 +1,57 @@
+//! Verification hooks. Compiled only with the off-by-default `verif-hooks` cargo feature.
+//!
+//! Nothing in here changes the behaviour of the library except for the source of time: with the
+//! feature enabled, the protocol timers read a thread-local virtual clock instead of the system
+//! clock, so that an external harness can drive retransmissions and timeouts deterministically.
+#![allow(missing_docs)]
+use std::cell::Cell;
+use std::ops::{Add, Sub};
+use std::time::Duration;
+
+thread_local! {
+    static NOW_NANOS: Cell<u64> = const { Cell::new(0) };
+}
+const EPOCH_OFFSET_MS: u128 = 1_700_000_000_000;
+
+/// Virtual replacement for `instant::Instant`, read from a thread-local clock.
+#[derive(Copy, Clone, Debug, PartialEq, Eq, PartialOrd, Ord)]
+pub struct Instant(u64);
+
+impl Instant {
+    pub fn now() -> Self {
+        Instant(NOW_NANOS.with(|n| n.get()))
+    }
+}
+
+impl Add<Duration> for Instant {
+    type Output = Instant;
+    fn add(self, rhs: Duration) -> Instant {
+        Instant(self.0.saturating_add(rhs.as_nanos() as u64))
+    }
+}
+
+impl Sub<Instant> for Instant {
+    type Output = Duration;
+    fn sub(self, rhs: Instant) -> Duration {
+        Duration::from_nanos(self.0.saturating_sub(rhs.0))
+    }
+}
+
+/// Sets the virtual clock of the calling thread (nanoseconds).
+pub fn clock_set_nanos(n: u64) {
+    NOW_NANOS.with(|c| c.set(n));
+}
+
+/// Reads the virtual clock of the calling thread (nanoseconds).
+pub fn clock_now_nanos() -> u64 {
+    NOW_NANOS.with(|c| c.get())
+}
+
+/// Advances the virtual clock of the calling thread.
+pub fn clock_advance(d: Duration) {
+    NOW_NANOS.with(|c| c.set(c.get().saturating_add(d.as_nanos() as u64)));
+}
+
+pub(crate) fn millis_since_epoch() -> u128 {
+    EPOCH_OFFSET_MS + u128::from(clock_now_nanos() / 1_000_000)
+}
